@@ -75,6 +75,14 @@ var failClasses = []failClass{
 	{"call-target-kind:no-arguments", `{{ s() }}`, true, true},
 	{"call-target-kind:field:no-arguments", `{{ item.Name() }}`, true, true},
 	{"call-target-kind:nil-func", `{{ nilfn() }}`, true, true},
+	// a jet.Func that was never configured (a typed nil): all three call forms
+	{"call-target-kind:nil-jet-func", `{{ niljf(1) }}`, true, true},
+	{"call-target-kind:nil-jet-func:command", `{{ niljf: 1 }}`, true, true},
+	{"call-target-kind:nil-jet-func:piped", `{{ 1 | niljf }}`, true, true},
+	// a template run by exec() fails below isset(), which swallows the failure: what is rendered
+	// between that and the failing action still belongs to the streamed prefix (mustFollow)
+	{"unknown-identifier:after-exec-failed-below-isset", `{{ if isset(exec("/zrtfail.jet").X) }}y{{ else }}n{{ end }}vis{{ zzNope }}`, true, false},
+	{"unknown-identifier:after-exec-with-context-failed-below-isset", `{{ if isset(exec("/zrtfail.jet", 1).X) }}y{{ else }}n{{ end }}vis{{ zzNope }}`, true, false},
 	// an operand outside the operator's range: integer division and remainder by zero
 	{"operand-range:mod-by-zero:literal", `{{ 7 % 0 }}`, true, true},
 	{"operand-range:div-by-zero:int", `{{ n / zint }}`, true, true},
@@ -100,6 +108,12 @@ var failClasses = []failClass{
 	{"operand-kind:equal:bytes-and-string", `{{ bytesv == "ab" }}`, true, true},
 	{"builtin-arg-kind:slice-of-nil", `{{ slice(nil) }}`, true, true},
 	{"arg-count:slice-shorter-than-array-parameter", `{{ arrfn(none) }}`, true, true},
+	// the neighbours of the four repairs of the last round: the same values at the other argument sites
+	{"arg-count:slice-shorter-than-array-parameter:piped", `{{ none | arrfn }}`, true, true},
+	{"arg-kind:slice-into-variadic:explicit", `{{ vsfn(names) }}`, true, true},
+	{"arg-kind:slice-into-variadic:piped-with-more", `{{ names | vsfn: "a" }}`, true, true},
+	{"builtin-arg-kind:slice-of-nil:later-argument", `{{ array(1, nil) }}`, true, true},
+	{"nil-dereference-field:promoted-through-nil-embedded-pointer:in-expression", `{{ 1 + len(nilemb.MetaName) }}`, true, true},
 	{"command-args-on-non-function", `{{ s: 1 }}`, true, true},
 	{"arg-count:few", `{{ upper() }}`, true, true},
 	{"arg-count:many", `{{ upper(s, s) }}`, true, true},
@@ -222,6 +236,13 @@ func position(msg string, files []string) (string, int, bool) {
 	return ps[0].File, ps[0].Line, true
 }
 
+// mustFollow: classes whose action renders text of its own before it fails: that text must follow
+// what preceded the site, byte for byte
+var mustFollow = map[string]string{
+	"unknown-identifier:after-exec-failed-below-isset":              "nvis",
+	"unknown-identifier:after-exec-with-context-failed-below-isset": "nvis",
+}
+
 var reToken = regexp.MustCompile(`@@\d+\.\d+@@`)
 
 // untoken removes the visible site tokens the twin program renders.
@@ -254,6 +275,7 @@ func RunC12(env *sim.Env) {
 	opts.Sites, opts.Probes, opts.ProbeExpr, opts.Dump = true, true, false, false
 	world := gen.GenWorld(t, opts)
 	world.Files["/zinc.jet"] = "zinc"
+	world.Files["/zrtfail.jet"] = "rt{{ zzNopeInExec }}"
 	world.Files["/zbroken.jet"] = "broken {{ if }} template"
 	world.Files["/zbadref.jet"] = `{{ extends "/zz/nowhere.jet" }}x`
 	data := gen.GenData(t, 1)
@@ -455,6 +477,11 @@ func RunC12(env *sim.Env) {
 					// an action of several lines moves what follows it in the file: line numbers inside
 					// caught error texts that are part of the rendering change legitimately
 					got, want = reLineInText.ReplaceAllString(got, ":L)"), reLineInText.ReplaceAllString(want, ":L)")
+				}
+				if mf, ok := mustFollow[fc.Name]; ok && strings.HasPrefix(got, want) && got != want+mf {
+					env.Violate("streamed-prefix", fc.Name+":own-text", "%s: the action renders %q before it fails, the writer holds %s after what preceded it", where, mf, sim.Q(got[len(want):]))
+				} else if ok {
+					env.Stat("probe:failing_action_own_text_streamed", 1)
 				}
 				if !strings.HasPrefix(got, want) {
 					env.Violate("streamed-prefix", fc.Name+":prefix", "%s: what preceded the failing action is not (all) in the writer.\nexpected prefix: %s\ngot:             %s", where, sim.Q(want), sim.Q(got))
